@@ -26,12 +26,13 @@ import (
 const vsim = "github.com/XiXi-2024/xixi-kv/vsim"
 
 var rebind = map[string]string{
-	"os":                           vsim + "/shim/os",
-	"sync":                         vsim + "/shim/sync",
-	"time":                         vsim + "/shim/time",
-	"syscall":                      vsim + "/shim/syscall",
-	"github.com/edsrzf/mmap-go":    vsim + "/shim/mmap",
+	"os":                            vsim + "/shim/os",
+	"sync":                          vsim + "/shim/sync",
+	"time":                          vsim + "/shim/time",
+	"syscall":                       vsim + "/shim/syscall",
+	"github.com/edsrzf/mmap-go":     vsim + "/shim/mmap",
 	"github.com/bwmarrin/snowflake": vsim + "/shim/snowflake",
+	"github.com/gofrs/flock":        vsim + "/flockcopy", // a copy of the library with the same seams (mkscratch.sh)
 }
 
 func main() {
@@ -110,6 +111,8 @@ func main() {
 						local = imp.Name.Name
 					} else if path == "github.com/edsrzf/mmap-go" {
 						local = "mmap"
+					} else if path == "github.com/gofrs/flock" {
+						local = "flock"
 					}
 					imp.Path.Value = strconv.Quote(to)
 					if local != "" && imp.Name == nil {
